@@ -121,4 +121,37 @@ theorem makeEmpty_refuses (shape : List Nat) (sd : Option Nat)
     · simp [hl, hd]
     · simp [hl]
 
+/-- **C14, `filter_keys`:** after filtering the entries are exactly the old entries whose key the
+    filter does not remove — in every classification, values untouched -/
+theorem filterMeta_ents (e : DExt κ α) (drop : κ → Bool) (x : κ × Cls × List α) :
+    x ∈ (e.filterMeta drop).ents ↔ x ∈ e.ents ∧ drop x.1 = false := by
+  simp [filterMeta, List.mem_filter]
+
+theorem filterMeta_keys (e : DExt κ α) (drop : κ → Bool) (k : κ) :
+    k ∈ (e.filterMeta drop).ents.map (·.1) ↔ k ∈ e.ents.map (·.1) ∧ drop k = false := by
+  simp only [List.mem_map, filterMeta_ents]
+  constructor
+  · rintro ⟨x, ⟨hx, hd⟩, rfl⟩; exact ⟨⟨x, hx, rfl⟩, hd⟩
+  · rintro ⟨⟨x, hx, rfl⟩, hd⟩; exact ⟨x, ⟨hx, hd⟩, rfl⟩
+
+theorem filterMeta_geometry (e : DExt κ α) (drop : κ → Bool) :
+    (e.filterMeta drop).shape = e.shape ∧ (e.filterMeta drop).sliceDim = e.sliceDim ∧
+    (e.filterMeta drop).hasTime = e.hasTime ∧ (e.filterMeta drop).hasVector = e.hasVector :=
+  ⟨rfl, rfl, rfl, rfl⟩
+
+/-- filtering keeps a valid extension valid -/
+theorem filterMeta_validB (e : DExt κ α) (drop : κ → Bool) (h : e.validB = true) :
+    (e.filterMeta drop).validB = true := by
+  simp only [validB, Bool.and_eq_true, List.all_eq_true, decide_eq_true_eq] at h ⊢
+  obtain ⟨h1, h2⟩ := h
+  refine ⟨?_, ?_⟩
+  · intro x hx
+    have hx' : x ∈ e.ents := ((filterMeta_ents e drop x).mp hx).1
+    have := h1 x hx'
+    simpa [filterMeta, shp] using this
+  · have hsub : ((e.filterMeta drop).ents.map (·.1)).Sublist (e.ents.map (·.1)) := by
+      simp only [filterMeta]
+      exact List.Sublist.map _ List.filter_sublist
+    exact List.Nodup.sublist hsub h2
+
 end DExt
